@@ -176,6 +176,8 @@ def describe(cls, users):
     d["types"] = [(int(k), str(v)) for k, v in types_.items()]
     extras = []
     seen = set()
+    ignored = []
+    bitkeys = set(str(k) for k in bp)
     for k in cls.__mro__:
         if k is object:
             continue
@@ -184,16 +186,24 @@ def describe(cls, users):
                 continue
             seen.add(n)
             f = _func(obj)
-            if not (callable(f) or isinstance(obj, (property, classmethod, staticmethod))
-                    or hasattr(obj, "__get__")):
-                # unknown plain class data: visible to the reader of the table, no semantics
-                extras.append((n, ".custom %s" % lstr("data:" + type(obj).__name__)))
-                continue
             q = _qual(obj)
             if q in EXTRA and EXTRA[q][0] == n and isinstance(obj, property):
                 extras.append((n, EXTRA[q][1]))
-            else:
-                extras.append((n, ".custom %s" % lstr(q)))
+                continue
+            dunder = n.startswith("__") and n.endswith("__")
+            if n in bitkeys or dunder:
+                # a class attribute of this name hides the named bit's property (found before __getattr__),
+                # and an unknown special method may change how the object is built, compared or rendered:
+                # no semantics in the model, `WellFormed` fails and the check searches for a witness
+                if not (callable(f) or isinstance(obj, (property, classmethod, staticmethod)) or hasattr(obj, "__get__")):
+                    extras.append((n, ".custom %s" % lstr("data:" + type(obj).__name__)))
+                else:
+                    extras.append((n, ".custom %s" % lstr(q)))
+                continue
+            # Anything else — private helpers and data, new public helper methods / properties / constants that
+            # none of the property's accessors is — is outside what C06 speaks about: listed, not judged.
+            ignored.append(n)
+    d["ignored"] = ignored
     d["extras"] = extras
     if d["bits_nonstr"]:
         d["status"] = ".custom %s" % lstr("non-string bit names")
@@ -213,6 +223,8 @@ def generate(repo):
         for n, e in d["extras"]:
             if e.startswith(".custom"):
                 summary["custom"].append("%s.%s" % (d["name"], n))
+        for n in d["ignored"]:
+            summary.setdefault("not_judged", []).append("%s.%s" % (d["name"], n))
         rows.append(
             "  { name := %s, module := %s,\n"
             "    mro := %s,\n"
